@@ -48,6 +48,8 @@ func routerPkg(path string) string {
 func runC17(c *core.Ctx) {
 	checkUpdateFeeRound(c)
 	checkVoteTagsDistinct(c, "C17.ledger-tag")
+	nRd := checkReaderParamsInKey(c, "C17.params-in-key", inNativeService)
+	c.Floor("identifying parameters of pure reader accessors in the native contracts", nRd, 40)
 	// (1) confinement
 	stStorage, err := c.P.Const("core/store/common", "ST_STORAGE")
 	if err != nil {
